@@ -178,7 +178,7 @@ def relay_validate(ctx, events):
         del seg[last + 1:]
     if dropped:
         ctx.extra["events_after_final_dropped"] = ctx.extra.get("events_after_final_dropped", 0) + dropped
-    fails = validate_segments(ctx, "RelayTrace", "RelayTrace.cfg", segs)
+    fails = validate_segments(ctx, "RelayTrace", "RelayTrace.cfg", segs, max_events=6000)
     for seg, idx, out, inv in fails:
         sig = relay_sig(seg, idx, inv)
         ev = seg[min(max(idx, 0), len(seg) - 1)]
@@ -626,7 +626,7 @@ def http_validate(ctx, events, label):
     """One segment per case so that every failing case is reported with its own signature."""
     segs = []
     for e in events:
-        if e.get("ev") in ("ReqCase", "RespCase", "IdCase", "ProcExit"):
+        if e.get("ev") in ("ReqCase", "RespCase", "CutCase", "IdCase", "ProcExit"):
             segs.append([{"ev": "Reset", "seg": e.get("case", "proc"), "sig": e.get("sig", "proc-exit")}, e])
     fails = validate_segments(ctx, "HttpMsgTrace", "HttpMsgTrace.cfg", segs, batch=400)
     for seg, idx, out, inv in fails:
